@@ -236,7 +236,35 @@ def group_cn():
     return out
 
 
-GROUPS = [("lp", group_lp), ("sel", group_sel), ("cov", group_cov), ("norm", group_norm), ("cn", group_cn)]
+def group_guard():
+    """the "no data, no call" guards: genotype.py average-depth test, coverage.py average / neutral depth, sam.py neutral floor,
+    cn.py low-depth test"""
+    out = []
+    add = _adder(out)
+    gfn = func(tree("genotype.py"), "genotype")
+    test = one([n.test for n in ast.walk(gfn) if isinstance(n, ast.If) and "min_avg_coverage" in ast.unparse(n.test)], "genotype: average-depth guard")
+    add("guard_avg", ["avg_cov", "min_avg"], "bool", test, {"avg_cov": "avg_cov", "profile.min_avg_coverage": "min_avg"}, "guard_avg")
+    cov = tree("coverage.py")
+    ac = func(cov, "Coverage.average_coverage")
+    ret = one([n.value for n in ast.walk(ac) if isinstance(n, ast.Return)], "average_coverage return")
+    if not (isinstance(ret, ast.BinOp) and isinstance(ret.op, ast.Div) and ast.unparse(ret.left) == "sum((self.total(pos) for pos in self._coverage))"):
+        raise FailClosed("average_coverage: shape changed: " + ast.unparse(ret))
+    add("guard_avg_cov", ["total", "n"], "Q", ret, {ast.unparse(ret.left): "total", "len(self._coverage)": "n"}, "guard_avg_cov")
+    dc = func(cov, "Coverage.diploid_avg_coverage")
+    ret = one([n.value for n in ast.walk(dc) if isinstance(n, ast.Return)], "diploid_avg_coverage return")
+    add("guard_dip_avg", ["total", "s", "e"], "Q", ret,
+        {"sum(self._cnv_coverage.values())": "total", "self.profile.cn_region.end": "e", "self.profile.cn_region.start": "s"}, "guard_dip_avg")
+    sfn = func(tree("sam.py"), "Sample.__init__")
+    cmp_ = one([n for n in ast.walk(sfn) if isinstance(n, ast.Compare) and ast.unparse(n.left) == "self.coverage.diploid_avg_coverage()"],
+               "Sample.__init__: neutral floor")
+    add("guard_neutral_thin", ["dip_avg"], "bool", cmp_, {"self.coverage.diploid_avg_coverage()": "dip_avg"}, "guard_neutral_thin")
+    efn = func(tree("cn.py"), "estimate_cn")
+    test = one([n.test for n in ast.walk(efn) if isinstance(n, ast.If) and "total_cov" in ast.unparse(n.test)], "estimate_cn: low-depth guard")
+    add("guard_cn_low", ["total_cov", "min_cov"], "bool", test, {"total_cov": "total_cov", "min_cov": "min_cov"}, "guard_cn_low")
+    return out
+
+
+GROUPS = [("lp", group_lp), ("sel", group_sel), ("cov", group_cov), ("norm", group_norm), ("cn", group_cn), ("guard", group_guard)]
 
 PRELUDE = """(* GENERATED by harness/gen_exprs.py from /repo's current sources - do not edit.
    Each definition is the structural translation of ONE expression of the code; the source text is quoted. *)
